@@ -1,9 +1,16 @@
 """Path rules over SimulationRunner._simulate_for_current_params_common shared by C05 and C07.
 
-Abstract state (forward, exception edges included):
-  res : None | (base, k)   number of repetitions contained in the results object  (base '' = 0, 'L' = loaded count)
-  rep : None | (base, k)   value of the repetition counter
-  saved : the unconditional end-of-variation save has been passed on every path reaching here
+Abstract values (forward, exception edges included, helper methods of the class analysed by SUMMARY - the same
+interpreter runs on the callee with its parameters bound to the abstract values of the arguments):
+  ('r', base, k)   a results object containing  base + k  repetitions  (base '' = 0, 'L' = the loaded count)
+  ('c', base, k)   an integer equal to base + k
+  ('none',)        None
+  UNK              anything else / widened
+Element of a state (states are finite sets of elements = disjunctive domain):
+  (res, rep, saved, pend, extra)   res/rep = values of the two loop-carried variables R (merged results) and N (counter)
+                                   saved   = the unconditional end-of-variation save has been passed
+                                   pend    = value of the most recently evaluated call
+                                   extra   = frozenset of (local name, value) for the other locals
 D = res - rep must be 0 at the loop head, every back edge, the loop exit, every save call and every return.
 """
 from __future__ import annotations
@@ -17,24 +24,30 @@ from .paths import ExcHierarchy, PathInterp, conjuncts, implied_compares
 
 RUNNER = 'pyphysim/simulations/runner.py'
 TOP = ('?', 0)
+UNK = ('unk',)
+NONE = ('none',)
+PRIMITIVE_RUN = '_run_simulation'
 
 
-def reaching_methods(model: Model, cname: str, target: str) -> Set[str]:
-    """Names of methods of class cname that (transitively, through self calls) call self.<target>()."""
+def reaching_methods(model: Model, cname: str, targets: Set[str]) -> Set[str]:
+    """Names of methods of class cname that (transitively, through self calls) make a call named in targets."""
     cls = model.cls(cname)
     methods: Dict[str, FuncInfo] = {}
     for k in reversed(model.mro(cls)):
         methods.update(k.methods)
     calls: Dict[str, Set[str]] = {}
+    direct: Set[str] = set()
     for name, fn in methods.items():
         sn = fn.self_name
         s: Set[str] = set()
-        if sn:
-            for n in ast.walk(fn.node):
-                if isinstance(n, ast.Call) and is_self_attr(n.func, sn):
+        for n in ast.walk(fn.node):
+            if isinstance(n, ast.Call) and isinstance(n.func, ast.Attribute):
+                if n.func.attr in targets:
+                    direct.add(name)
+                if sn and is_self_attr(n.func, sn):
                     s.add(n.func.attr)
         calls[name] = s
-    reach = {target}
+    reach = set(direct)
     changed = True
     while changed:
         changed = False
@@ -45,41 +58,62 @@ def reaching_methods(model: Model, cname: str, target: str) -> Set[str]:
     return reach
 
 
+def _rk(v) -> Optional[Tuple[str, int]]:
+    """(base, k) of a kinded value or None."""
+    if isinstance(v, tuple) and len(v) == 3 and v[0] in ('r', 'c'):
+        return (v[1], v[2])
+    return None
+
+
 class RunnerLoop(PathInterp):
-    def __init__(self, model: Model, fn: FuncInfo):
-        super().__init__(fn, ExcHierarchy(model))
+    def __init__(self, model: Model, fn: FuncInfo, root: Optional['RunnerLoop'] = None, depth: int = 0):
+        super().__init__(fn, ExcHierarchy(model) if root is None else root.h)
         self.M = model
         self.sn = fn.self_name or 'self'
-        self.may = reaching_methods(model, 'SimulationRunner', '_run_simulation') - {'_run_simulation'} | {'_run_simulation'}
-        self.may -= {fn.name}
-        # anchors by role, never by position
-        whiles = [n for n in walk_no_nested(fn.node) if isinstance(n, ast.While)]
-        loops = [w for w in whiles if any(isinstance(c, ast.Call) and self._is_merge(c) for c in ast.walk(w))]
-        if len(loops) != 1:
-            raise AnalysisError('runner: expected one repetition loop containing merge_all_results, found %d' % len(loops))
-        self.loop = loops[0]
-        merges = [c for c in ast.walk(self.loop) if isinstance(c, ast.Call) and self._is_merge(c)]
-        recv = {norm(c.func.value) for c in merges}
-        if len(recv) != 1 or not isinstance(merges[0].func.value, ast.Name):
-            raise AnalysisError('runner: merge receivers %s (idiom unknown)' % sorted(recv))
-        self.R = merges[0].func.value.id
-        incs = [n for n in ast.walk(self.loop) if isinstance(n, ast.AugAssign) and isinstance(n.target, ast.Name)
-                and isinstance(n.op, ast.Add)]
-        names = {n.target.id for n in incs}
-        if len(names) != 1:
-            raise AnalysisError('runner: expected one counter incremented in the loop, found %s' % sorted(names))
-        self.N = names.pop()
-        self.problems: List[Tuple[str, str, ast.AST, Any]] = []
-        self.run_sites: List[ast.Call] = []
-        self.save_sites: List[Tuple[ast.Call, Any]] = []
-        self.n_merge = self.n_inc = 0
+        self.root = root or self
+        self.depth = depth
+        self.loop: Optional[ast.While] = None
+        self.R: Optional[str] = None
+        self.N: Optional[str] = None
+        if root is None:
+            cls = fn.cls.name if fn.cls else 'SimulationRunner'
+            self.interesting = reaching_methods(model, cls, {PRIMITIVE_RUN, 'load_partial_results', 'merge_all_results',
+                                                             'save_partial_results', 'save_partial_results_maybe'})
+            self.interesting -= {PRIMITIVE_RUN, fn.name}
+            # anchors by role, never by position
+            whiles = [n for n in walk_no_nested(fn.node) if isinstance(n, ast.While)]
+            loops = [w for w in whiles if any(isinstance(c, ast.Call) and self._is_merge(c) for c in ast.walk(w))]
+            if len(loops) != 1:
+                raise AnalysisError('runner: expected one repetition loop containing merge_all_results, found %d' % len(loops))
+            self.loop = loops[0]
+            merges = [c for c in ast.walk(self.loop) if isinstance(c, ast.Call) and self._is_merge(c)]
+            recv = {norm(c.func.value) for c in merges}
+            if len(recv) != 1 or not isinstance(merges[0].func.value, ast.Name):
+                raise AnalysisError('runner: merge receivers %s (idiom unknown)' % sorted(recv))
+            self.R = merges[0].func.value.id
+            incs = [n for n in ast.walk(self.loop) if isinstance(n, ast.AugAssign) and isinstance(n.target, ast.Name)
+                    and isinstance(n.op, ast.Add)]
+            names = {n.target.id for n in incs}
+            if len(names) != 1:
+                raise AnalysisError('runner: expected one counter incremented in the loop, found %s' % sorted(names))
+            self.N = names.pop()
+            self.problems: List[Tuple[str, str, ast.AST, Any, Any]] = []
+            self.run_sites: List[ast.Call] = []
+            self.skip_sites: Dict[Tuple[str, int], Tuple[FuncInfo, ast.AST, bool]] = {}
+            self.save_sites: List[Tuple[ast.Call, Any, FuncInfo, List[Any]]] = []
+            self.head_states: List[Any] = []
+            self.n_merge = self.n_inc = 0
+            self.summaries: Dict[Any, Any] = {}
+            self.stack: List[str] = [fn.name]
+            self.analysed: Set[str] = {fn.qualname}
+        self.max_iter = 16
 
     # ---- recognisers
     def _is_merge(self, c: ast.Call) -> bool:
         return isinstance(c.func, ast.Attribute) and c.func.attr == 'merge_all_results'
 
     def _is_run(self, c: ast.Call) -> bool:
-        return is_self_attr(c.func, self.sn) in self.may if isinstance(c.func, ast.Attribute) else False
+        return isinstance(c.func, ast.Attribute) and is_self_attr(c.func, self.sn) == PRIMITIVE_RUN
 
     def _is_load(self, c: ast.Call) -> bool:
         return isinstance(c.func, ast.Attribute) and c.func.attr == 'load_partial_results'
@@ -89,28 +123,146 @@ class RunnerLoop(PathInterp):
             return c.func.attr
         return None
 
-    # ---- element-wise helpers: a state is a frozenset of (res, rep, saved, pending) elements
+    def _helper(self, c: ast.Call) -> Optional[FuncInfo]:
+        if not isinstance(c.func, ast.Attribute):
+            return None
+        name = is_self_attr(c.func, self.sn)
+        if name is None or name not in self.root.interesting or self.fn.cls is None:
+            return None
+        return self.M.lookup_method(self.fn.cls, name)
+
+    # ---- values
+    def get(self, el, name: str):
+        if name == self.R:
+            return UNK if el[0] == TOP else (NONE if el[0] is None else ('r',) + el[0])
+        if name == self.N:
+            return UNK if (el[1] == TOP or el[1] is None) else ('c',) + el[1]
+        for k, v in el[4]:
+            if k == name:
+                return v
+        return UNK
+
+    def put(self, el, name: str, v):
+        res, rep, saved, pend, extra = el
+        if name == self.R:
+            res = _rk(v) if (isinstance(v, tuple) and v and v[0] == 'r') else (None if v == NONE else TOP)
+        elif name == self.N:
+            rep = _rk(v) if (isinstance(v, tuple) and v and v[0] == 'c') else TOP
+        else:
+            d = dict(extra)
+            if v == UNK or isinstance(v, list):
+                d.pop(name, None)
+            else:
+                d[name] = v
+            extra = frozenset(d.items())
+        return (res, rep, saved, pend, extra)
+
+    def val(self, el, e: Optional[ast.AST]):
+        """Abstract value of expression e in element el (calls: the pending value of the call just evaluated)."""
+        if e is None:
+            return NONE
+        if isinstance(e, ast.Name):
+            return self.get(el, e.id)
+        if isinstance(e, ast.Constant):
+            if e.value is None:
+                return NONE
+            if isinstance(e.value, int) and not isinstance(e.value, bool):
+                return ('c', '', e.value)
+            return UNK
+        if isinstance(e, ast.Attribute) and e.attr == 'current_rep':
+            v = self.val(el, e.value)
+            # the loaded object carries its own repetition count in this field (C07.b store-before-save)
+            if isinstance(v, tuple) and v[0] == 'r' and v[1] == 'L' and v[2] == 0:
+                return ('c', 'L', 0)
+            return UNK
+        if isinstance(e, ast.Call):
+            return el[3] if el[3] is not None else UNK
+        if isinstance(e, ast.BinOp) and isinstance(e.op, (ast.Add, ast.Sub)):
+            l, r = self.val(el, e.left), self.val(el, e.right)
+            if isinstance(l, tuple) and isinstance(r, tuple) and l[0] == 'c' and r[0] == 'c':
+                if isinstance(e.op, ast.Add) and (l[1] == '' or r[1] == ''):
+                    return ('c', l[1] or r[1], l[2] + r[2])
+                if isinstance(e.op, ast.Sub) and r[1] == '':
+                    return ('c', l[1], l[2] - r[2])
+            return UNK
+        if isinstance(e, ast.Tuple):
+            if len([x for x in e.elts if isinstance(x, ast.Call)]) > 1:
+                return UNK
+            return [self.val(el, x) for x in e.elts]
+        return UNK
+
+    # ---- element-wise helpers: a state is a frozenset of elements
     @staticmethod
     def Dof(el) -> Any:
+        """0 / non-zero int: definite; 'mismatch': definite disagreement of kind; 'unknown': not decided."""
         r, n = el[0], el[1]
-        if r is None or n is None or r == TOP or n == TOP or r[0] != n[0]:
-            return '?'
+        if r == TOP or n == TOP:
+            return 'unknown'
+        if r is None or n is None or r[0] != n[0]:
+            return 'mismatch'
         return r[1] - n[1]
 
-    @staticmethod
-    def _normal(el):
-        r, n, saved, pend = el
+    def _normal(self, el):
+        r, n, saved, pend, extra = el
         if r is not None and n is not None and r != TOP and n != TOP and r[0] == n[0]:
             d = r[1] - n[1]
             if abs(d) > 3:
-                return (TOP, TOP, saved, pend)
+                r, n = TOP, TOP
             # keep only the difference (finite domain): loaded-base pairs are shifted to rep offset 0
-            if r[0] == 'L' or n[1] > 1:
-                return ((r[0], d), (n[0], 0), saved, pend)
-        return el
+            elif r[0] == 'L' or n[1] > 1:
+                r, n = (r[0], d), (n[0], 0)
+        elif r is not None and r != TOP and abs(r[1]) > 4:
+            r = TOP
+        if n is not None and n != TOP and abs(n[1]) > 6:
+            n = TOP
+        # widening of the other locals
+        if extra:
+            d2 = {}
+            for k, v in extra:
+                if isinstance(v, tuple) and len(v) == 3 and abs(v[2]) > 3:
+                    continue
+                d2[k] = v
+            extra = frozenset(d2.items())
+        return (r, n, saved, pend, extra)
 
     def _map(self, st, f):
         return frozenset(self._normal(f(el)) for el in st)
+
+    # ---- summaries of helper methods
+    def _summary(self, h: FuncInfo, c: ast.Call, el):
+        """[(returned value, saved, {param: final value})], {exception class names}  for helper h called at c in el."""
+        root = self.root
+        a = h.node.args
+        params = [x.arg for x in a.posonlyargs + a.args][1:]
+        bind: Dict[str, Any] = {}
+        for p, arg in zip(params, c.args):
+            bind[p] = self.val(el, arg)
+        for k in c.keywords:
+            if k.arg:
+                bind[k.arg] = self.val(el, k.value)
+        entry = (None, None, el[2], None, frozenset((k, v) for k, v in bind.items() if v != UNK and not isinstance(v, list)))
+        key = (h.qualname, entry)
+        if key in root.summaries:
+            return root.summaries[key]
+        if h.name in root.stack or self.depth >= 5:
+            out = ([(UNK, el[2], {})], {'SkipThisOne'} if h.name in root.interesting else set())
+            root.summaries[key] = out
+            return out
+        root.stack.append(h.name)
+        root.analysed.add(h.qualname)
+        sub = RunnerLoop(self.M, h, root, self.depth + 1)
+        rebinds = {n.id for n in ast.walk(h.node) if isinstance(n, ast.Name) and isinstance(n.ctx, ast.Store)}
+        sub.run(frozenset([entry]))
+        root.stack.pop()
+        rets = []
+        for st, node in sub.exits:
+            for x in st:
+                rv = sub.val((x[0], x[1], x[2], x[3], x[4]), node.value) if isinstance(node, ast.Return) else NONE
+                finals = {p: (UNK if p in rebinds else sub.get(x, p)) for p in params}
+                rets.append((tuple(rv) if isinstance(rv, list) else rv, x[2], tuple(sorted(finals.items(), key=repr))))
+        out = (sorted(set(rets), key=repr), {exc for (_, exc, _) in sub.exc_exits})
+        root.summaries[key] = out
+        return out
 
     # ---- hooks
     def join(self, a, b):
@@ -118,86 +270,177 @@ class RunnerLoop(PathInterp):
 
     def may_raise(self, c, st):
         if self._is_run(c):
-            self.run_sites.append(c)
             return ['SkipThisOne']
+        h = self._helper(c)
+        if h is not None:
+            out: Set[str] = set()
+            for el in st:
+                out |= self._summary(h, c, el)[1]
+            return sorted(out)
         return []
 
+    def _route(self, exc, st, node):
+        before = len(self.exc_exits)
+        super()._route(exc, st, node)
+        if exc == 'SkipThisOne':
+            handled = len(self.exc_exits) == before
+            key = (self.fn.qualname, getattr(node, 'lineno', 0))
+            old = self.root.skip_sites.get(key)
+            self.root.skip_sites[key] = (self.fn, node, handled and (old[2] if old else True))
+            if self is self.root and isinstance(node, ast.Call):
+                self.run_sites.append(node)
+
     def on_call(self, c, st):
+        root = self.root
         if self._is_run(c):
-            st = self._map(st, lambda e: (e[0], e[1], e[2], ('', 1)))     # fresh results holding one repetition
-        elif self._is_load(c):
-            st = self._map(st, lambda e: (e[0], e[1], e[2], ('L', 0)))
-        elif self._is_merge(c) and isinstance(c.func.value, ast.Name) and c.func.value.id == self.R:
-            self.n_merge += 1
+            return self._map(st, lambda e: (e[0], e[1], e[2], ('r', '', 1), e[4]))     # fresh results holding one repetition
+        if self._is_load(c):
+            return self._map(st, lambda e: (e[0], e[1], e[2], ('r', 'L', 0), e[4]))
+        if self._is_merge(c):
+            root.n_merge += 1
+            recv = c.func.value
 
             def mg(e):
-                r = e[0]
-                return (TOP if (r is None or r == TOP) else (r[0], r[1] + 1), e[1], e[2], e[3])
-            st = self._map(st, mg)
+                add = self.val(e, c.args[0]) if c.args else UNK
+                if not isinstance(recv, ast.Name):
+                    return (e[0], e[1], e[2], None, e[4])
+                cur = self.get(e, recv.id)
+                if isinstance(cur, tuple) and cur[0] == 'r' and isinstance(add, tuple) and add[0] == 'r' and add[1] == '':
+                    new = ('r', cur[1], cur[2] + add[2])
+                else:
+                    new = UNK
+                e = self.put(e, recv.id, new)
+                return (e[0], e[1], e[2], None, e[4])
+            return self._map(st, mg)
         kind = self._is_save(c)
         if kind:
-            self.save_sites.append((c, st))
+            ds = []
+            for e in st:
+                cnt = self.val(e, c.args[0]) if len(c.args) >= 1 else UNK
+                res = self.val(e, c.args[2]) if len(c.args) >= 3 else UNK
+                if not (isinstance(cnt, tuple) and cnt[0] == 'c') or not (isinstance(res, tuple) and res[0] == 'r'):
+                    ds.append('mismatch' if (cnt == NONE or res == NONE) else 'unknown')
+                elif cnt[1] != res[1]:
+                    ds.append('mismatch')
+                else:
+                    ds.append(res[2] - cnt[2])
+            root.save_sites.append((c, st, self.fn, ds))
             if kind == 'save_partial_results':
-                st = self._map(st, lambda e: (e[0], e[1], True, e[3]))
-        return st
+                return self._map(st, lambda e: (e[0], e[1], True, None, e[4]))
+            return self._map(st, lambda e: (e[0], e[1], e[2], None, e[4]))
+        h = self._helper(c)
+        if h is not None:
+            out = set()
+            for e in st:
+                rets, _ = self._summary(h, c, e)
+                a = h.node.args
+                params = [x.arg for x in a.posonlyargs + a.args][1:]
+                for rv, saved, finals in rets:
+                    ne = (e[0], e[1], saved, list(rv) if isinstance(rv, tuple) and rv and not isinstance(rv[0], str) else rv, e[4])
+                    fin = dict(finals)
+                    for p, arg in zip(params, c.args):
+                        # results objects are passed by reference: what the helper merged into them is visible here
+                        if isinstance(arg, ast.Name) and isinstance(self.get(e, arg.id), tuple) and self.get(e, arg.id)[0] == 'r':
+                            pe = self.put(ne, arg.id, fin.get(p, UNK))
+                            ne = (pe[0], pe[1], ne[2], ne[3], pe[4])
+                    # the pending value must be hashable inside the frozenset
+                    ne = (ne[0], ne[1], ne[2], tuple(ne[3]) if isinstance(ne[3], list) else ne[3], ne[4])
+                    out.add(self._normal(ne))
+            return frozenset(out) if out else None
+        # any other call: its value is not tracked
+        return self._map(st, lambda e: (e[0], e[1], e[2], None, e[4]))
+
+    def _pend_value(self, e, v: Optional[ast.AST]):
+        """Value of the right-hand side v in element e (a tuple value for helper calls returning tuples)."""
+        if isinstance(v, ast.Call):
+            p = e[3]
+            if p is None:
+                return UNK
+            if isinstance(p, tuple) and p and not isinstance(p[0], str):
+                return list(p)
+            return p
+        return self.val(e, v)
 
     def on_assign(self, s, st):
+        root = self.root
         tg = s.targets if isinstance(s, ast.Assign) else [s.target]
-        names = [t.id for t in tg if isinstance(t, ast.Name)]
         if isinstance(s, ast.AugAssign):
-            if self.N in names:
-                self.n_inc += 1
-                one = isinstance(s.op, ast.Add) and isinstance(s.value, ast.Constant) and s.value.value == 1
+            if isinstance(s.target, ast.Name):
+                name = s.target.id
+                if self is root and name == self.N:
+                    root.n_inc += 1
+                const = s.value.value if isinstance(s.value, ast.Constant) and isinstance(s.value.value, int) else None
 
                 def inc(e):
-                    n = e[1]
-                    return (e[0], (n[0], n[1] + 1) if (one and n is not None and n != TOP) else TOP, e[2], e[3])
+                    cur = self.get(e, name)
+                    if isinstance(cur, tuple) and cur[0] == 'c' and const is not None and isinstance(s.op, (ast.Add, ast.Sub)):
+                        new = ('c', cur[1], cur[2] + (const if isinstance(s.op, ast.Add) else -const))
+                    else:
+                        new = UNK
+                    e = self.put(e, name, new)
+                    return (e[0], e[1], e[2], None, e[4])
                 st = self._map(st, inc)
             return st
         v = getattr(s, 'value', None)
+        if v is None:
+            return st
 
         def asg(e):
-            r, n, saved, pend = e
-            if self.R in names:
-                if isinstance(v, ast.Call) and (self._is_run(v) or self._is_load(v)) and pend:
-                    r = pend
-                else:
-                    r = TOP
-            if self.N in names:
-                if isinstance(v, ast.Constant) and isinstance(v.value, int):
-                    n = ('', v.value)
-                elif isinstance(v, ast.Attribute) and isinstance(v.value, ast.Name) and v.value.id == self.R \
-                        and v.attr == 'current_rep':
-                    n = ('L', 0) if (r is not None and r != TOP and r[0] == 'L') else TOP
-                else:
-                    n = TOP
-            return (r, n, saved, None)
+            val = self._pend_value(e, v)
+            for t in tg:
+                if isinstance(t, ast.Name):
+                    e = self.put(e, t.id, UNK if isinstance(val, list) else val)
+                elif isinstance(t, (ast.Tuple, ast.List)):
+                    vals = val if isinstance(val, list) and len(val) == len(t.elts) else [UNK] * len(t.elts)
+                    for x, xv in zip(t.elts, vals):
+                        if isinstance(x, ast.Name):
+                            e = self.put(e, x.id, UNK if isinstance(xv, list) else xv)
+            return (e[0], e[1], e[2], None, e[4])
         return self._map(st, asg)
 
     def on_test(self, test, st):
-        # `R is None` : only a loaded object can be None; on the true edge there is no results object
+        # `X is None` : only a loaded object can be None; on the true edge there is no results object
         if isinstance(test, ast.Compare) and len(test.ops) == 1 and isinstance(test.left, ast.Name) \
-                and test.left.id == self.R and isinstance(test.comparators[0], ast.Constant) \
+                and isinstance(test.comparators[0], ast.Constant) \
                 and test.comparators[0].value is None and isinstance(test.ops[0], (ast.Is, ast.IsNot)):
-            none_side = self._map(st, lambda e: (None, e[1], e[2], e[3]))
-            # a results object produced by a run is never None
-            maybe_none = frozenset(e for e in st if e[0] is None or e[0] == TOP or e[0][0] == 'L')
-            none_side = self._map(maybe_none, lambda e: (None, e[1], e[2], e[3])) if maybe_none else None
-            some_side = frozenset(e for e in st if e[0] is not None) or None
+            x = test.left.id
+            none_side, some_side = set(), set()
+            for e in st:
+                v = self.get(e, x)
+                if v == NONE:
+                    none_side.add(e)
+                elif isinstance(v, tuple) and v[0] == 'r' and v[1] == 'L':
+                    # a loaded object may be None (nothing to resume) ...
+                    none_side.add(self._normal(self.put(e, x, NONE)))
+                    some_side.add(e)
+                elif isinstance(v, tuple) and v[0] == 'r':
+                    some_side.add(e)            # a results object produced by a run is never None
+                else:
+                    none_side.add(e)
+                    some_side.add(e)
+            ns = frozenset(none_side) or None
+            ss = frozenset(some_side) or None
             if isinstance(test.ops[0], ast.Is):
-                return none_side, some_side
-            return some_side, none_side
+                return ns, ss
+            return ss, ns
+        if isinstance(test, ast.Constant) and test.value is True:
+            return st, None
+        if isinstance(test, ast.UnaryOp) and isinstance(test.op, ast.Not):
+            t, f = self.on_test(test.operand, st)
+            return f, t
         return st, st
 
     def _chk(self, where: str, node: ast.AST, st) -> None:
         for el in sorted(st, key=repr):
             d = self.Dof(el)
             if d != 0:
-                self.problems.append((where, 'results hold %s repetitions but the counter is %s (difference %s)'
-                                      % (el[0], el[1], d), node, el))
+                self.root.problems.append((where, 'results hold %s repetitions but the counter is %s (difference %s)'
+                                           % (el[0], el[1], d), node, el, d))
 
     def on_loop_head(self, s, st, first):
         if s is self.loop:
+            if first:
+                self.head_states.append(st)
             self._chk('loop-head', s, st)
 
     def on_back_edge(self, s, st):
@@ -212,5 +455,10 @@ class RunnerLoop(PathInterp):
 def analyse_runner(model: Model):
     fn = model.func(RUNNER, 'SimulationRunner._simulate_for_current_params_common')
     it = RunnerLoop(model, fn)
-    it.run(frozenset([(None, None, False, None)]))
+    it.run(frozenset([(None, None, False, None, frozenset())]))
     return fn, it
+
+
+def definite(d) -> bool:
+    """A difference that is a decided disagreement (as opposed to 'unknown' = the analysis lost track)."""
+    return d == 'mismatch' or (isinstance(d, int) and d != 0)
